@@ -7,7 +7,7 @@ import json
 
 from harness import conv, formgen, render, rowtrace, tlc
 
-ALL_FEAT = frozenset({"logic", "lang", "media", "defaults", "hints", "unlabeled", "appearance", "settings",
+ALL_FEAT = frozenset({"externals", "logic", "lang", "media", "defaults", "hints", "unlabeled", "appearance", "settings",
                       "choices_extra", "trigger", "refs_in_labels", "params", "instance_attrs", "dotted_names", "disabled"})
 
 
